@@ -14,7 +14,7 @@ func genSim(r *term.Rng, idx int) term.T {
 	}
 	n := nc + ne
 	hpScale := enemy.Curve(enemy.Curve1)[1].HPScaling
-	nscripts := r.Range(4, 14)
+	nscripts := r.Range(5, 14)
 	anyID := func() int64 {
 		if r.Chance(1, 30) {
 			return 99
@@ -35,8 +35,16 @@ func genSim(r *term.Rng, idx int) term.T {
 	fracs := []float64{0, 0, 0.25, 0.5, 1, 1}
 	prios := []int64{45, 48, 55, 75, 75, 115, 175, 500, 500}
 	flags := []int64{1, 3, 100}
+	// scripts [0, nbody) are bodies of actions / ults / inserts; scripts [nbody, nscripts) are run
+	// from listeners and must not open or close an attack bracket (legal use of the API)
+	nbody := nscripts - r.Range(1, 3)
+	listener := false
 	genOp := func() term.T {
-		switch k := r.Intn(24); {
+		k := r.Intn(24)
+		if listener && k == 7 {
+			k = 23
+		}
+		switch {
 		case k < 7:
 			ts := []term.T{}
 			for j := r.Range(0, 3); j > 0; j-- {
@@ -45,7 +53,7 @@ func genSim(r *term.Rng, idx int) term.T {
 			if len(ts) == 0 && r.Chance(3, 4) {
 				ts = append(ts, tsel())
 			}
-			return term.C("SAttack", term.I(int64(r.Range(1, 9))), term.L(ts...), term.B(r.Chance(3, 4)), term.F(term.Pick(r, dmgs)))
+			return term.C("SAttack", term.I(int64(r.Range(1, 9))), term.L(ts...), term.B(!listener && r.Chance(3, 4)), term.F(term.Pick(r, dmgs)))
 		case k < 8:
 			return term.C("SEndAttack")
 		case k < 11:
@@ -57,7 +65,7 @@ func genSim(r *term.Rng, idx int) term.T {
 					ab = append(ab, term.I(f))
 				}
 			}
-			return term.C("SInsertAbility", term.I(int64(r.Range(1, 9))), term.I(term.Pick(r, prios)), tsel(), term.L(ab...), term.Nat(r.Intn(nscripts)))
+			return term.C("SInsertAbility", term.I(int64(r.Range(1, 9))), term.I(term.Pick(r, prios)), tsel(), term.L(ab...), term.Nat(r.Intn(nbody)))
 		case k < 17:
 			return term.C("SInsertAction", tsel())
 		case k < 19:
@@ -79,6 +87,7 @@ func genSim(r *term.Rng, idx int) term.T {
 	}
 	scripts := []term.T{}
 	for i := 0; i < nscripts; i++ {
+		listener = i >= nbody
 		ops := []term.T{}
 		for j := r.Range(0, 5); j > 0; j-- {
 			ops = append(ops, genOp())
@@ -91,7 +100,14 @@ func genSim(r *term.Rng, idx int) term.T {
 	ids := func(k int) term.T {
 		out := []term.T{}
 		for ; k > 0; k-- {
-			out = append(out, term.Nat(r.Intn(nscripts)))
+			out = append(out, term.Nat(r.Intn(nbody)))
+		}
+		return term.L(out...)
+	}
+	lids := func(k int) term.T {
+		out := []term.T{}
+		for ; k > 0; k-- {
+			out = append(out, term.Nat(nbody+r.Intn(nscripts-nbody)))
 		}
 		return term.L(out...)
 	}
@@ -156,7 +172,7 @@ func genSim(r *term.Rng, idx int) term.T {
 		ults = append(ults, term.L(reqs...))
 	}
 	return term.C("mkCfg", term.L(units...), term.L(scripts...), term.L(next...), term.L(ults...),
-		ids(r.Range(0, 1)), ids(r.Range(0, 4)), ids(r.Range(0, 4)), ids(r.Range(0, 3)),
+		lids(r.Range(0, 1)), lids(r.Range(0, 4)), lids(r.Range(0, 4)), lids(r.Range(0, 3)),
 		term.I(int64(r.Range(0, 4))), term.I(int64(r.Range(0, 12))))
 }
 
